@@ -15,7 +15,7 @@
 //
 //	O set r|w <ms> | setpast r|w | both <ms> | clear r|w | clearboth | write full|short|err | flush full|short|err
 //	O close | wait                                   (virt)
-//	O conn | req small|big | wsup | msg | ping | wait       (http / ws)
+//	O conn | req small|big | req slow <ms> | wsup | msg | ping | wait       (http / ws; slow: the handler sleeps <ms>)
 //	Q g=<ms>                                         final observation, issued after every deadline + g
 //
 // exec annotates each op with at=/at2= (µs since the case started, before/after the call) and st=/post= (the conn
@@ -32,6 +32,8 @@
 //	c16-stale       a timeout close of a direction with no deadline in force (cleared, drained, never set)
 //	c16-missed      at Q a deadline in force is more than g past its latest possible value and the conn is open
 //	c16-error-kind  the close notification carries the wrong error for what closed the connection
+//	c16-renewal     right after an op the read deadline timer is not armed for the deadline that is in force after it
+//	                (read from the timer object through the hook VerifDeadlines: no waiting, independent of load)
 //
 // Cases run concurrently (-par, default 48) because they mostly sleep; output order is the input order.
 package main
@@ -112,6 +114,8 @@ func gen(g *lp.Gen) {
 			genDial(g, i)
 		case g.Tier != "thorough" && i%16 == 13:
 			genWS(g, i) // WS keep-alive with heartbeats also in the quick tier
+		case i%16 == 9:
+			genHTTPSlow(g, i) // HTTP keep-alive behind slow handlers, quick tier too
 		case g.Tier == "thorough" && i%8 == 6:
 			genHTTP(g, i)
 		case g.Tier == "thorough" && i%8 == 7:
@@ -266,6 +270,27 @@ func genHTTP(g *lp.Gen, id int) {
 	}
 	// allow for slow exchanges: the final observation is planned generously late; the executor
 	// moves it further if the real exchanges took longer
+	g.P("Q g=%d t=%d", gBound(g)+200, last+gBound(g)+200)
+}
+
+// genHTTPSlow: keep-alive with SLOW handlers: the keep-alive deadline is renewed when the response has been flushed, not
+// when the request arrives — the idle time starts after the response. Handler time = 0.6–0.8 × ka, started early enough
+// to finish before the deadline in force; then the client stays idle: the close must not come before (end of the
+// handler) + ka.
+func genHTTPSlow(g *lp.Gen, id int) {
+	ka := g.PickInt(200, 250, 300)
+	g.P("C %d http ka=%d wt=0", id, ka)
+	t := 0
+	g.P("O conn t=%d", t)
+	last := t + ka
+	n := 1 + g.Intn(2)
+	for k := 0; k < n; k++ {
+		t += ka / 10
+		h := ka * g.PickInt(6, 7, 8) / 10
+		g.P("O req slow %d t=%d", h, t)
+		t += h
+		last = t + ka
+	}
 	g.P("Q g=%d t=%d", gBound(g)+200, last+gBound(g)+200)
 }
 
@@ -540,7 +565,7 @@ func atoi(s string) int { n, _ := strconv.Atoi(s); return n }
 func stripAnn(ws []string) []string {
 	var o []string
 	for _, w := range ws {
-		if strings.HasPrefix(w, "at=") || strings.HasPrefix(w, "at2=") || strings.HasPrefix(w, "st=") || strings.HasPrefix(w, "post=") || strings.HasPrefix(w, "res=") {
+		if strings.HasPrefix(w, "at=") || strings.HasPrefix(w, "at2=") || strings.HasPrefix(w, "st=") || strings.HasPrefix(w, "post=") || strings.HasPrefix(w, "res=") || strings.HasPrefix(w, "rd=") {
 			continue
 		}
 		o = append(o, w)
@@ -668,7 +693,36 @@ func runCase(cr *caseRun) {
 		if ws[1] == "dial" {
 			extra = " res=" + e.dialRes
 		}
-		fmt.Fprintf(&cr.out, "> %s%s at=%d at2=%d st=%s post=%s\nR st=%s post=%s%s\n", strings.Join(ws, " "), extra, t0, t1, st.ann(), post.ann(), st.kind, post.kind, hsOf(kind, post))
+		// ---- the renewal is an event: what the read deadline timer is armed for right after the op is read from the
+		// timer object, without waiting. Second line of defence stays the observation in real time.
+		rdl := ""
+		if c := e.nbc(); c != nil && post.kind == "open" && ws[1] != "dial" {
+			rd, _, ok := c.VerifDeadlines()
+			switch {
+			case !ok:
+				extra += " rd=na"
+			case rd.IsZero():
+				extra += " rd=none"
+			default:
+				extra += fmt.Sprintf(" rd=%d", int64(rd.Sub(e.start)/time.Microsecond))
+			}
+			rdl = " rdl=ok"
+			if ok && !c.VerifState().Closed {
+				lo, hi := e.tr.lo[0], e.tr.hi[0]
+				rdUs := int64(rd.Sub(e.start) / time.Microsecond)
+				switch {
+				case lo >= 0 && hi >= 0 && rd.IsZero() && lo > t1+2000:
+					e.oracle("c16-renewal", "after `%s` no read deadline timer is armed although a read deadline (not before %dus) is in force", strings.Join(ws[1:len(ws)-1], " "), lo)
+				case lo >= 0 && hi >= 0 && !rd.IsZero() && rdUs < lo-2000:
+					e.oracle("c16-renewal", "after `%s` the read deadline timer is armed for %dus, but the deadline in force after this op is not before %dus: the op did not renew it (it will fire %dus early)", strings.Join(ws[1:len(ws)-1], " "), rdUs, lo, lo-rdUs)
+				case lo >= 0 && hi >= 0 && !rd.IsZero() && rdUs > hi+2000 && kind != "virt":
+					e.oracle("c16-renewal", "after `%s` the read deadline timer is armed for %dus, later than the latest possible value %dus of the deadline in force", strings.Join(ws[1:len(ws)-1], " "), rdUs, hi)
+				case lo < 0 && hi == -1 && !rd.IsZero() && rdUs > t1+2000 && kind != "virt":
+					e.oracle("c16-renewal", "after `%s` a read deadline timer is armed (for %dus) although no read deadline is in force", strings.Join(ws[1:len(ws)-1], " "), rdUs)
+				}
+			}
+		}
+		fmt.Fprintf(&cr.out, "> %s%s at=%d at2=%d st=%s post=%s\nR st=%s post=%s%s%s\n", strings.Join(ws, " "), extra, t0, t1, st.ann(), post.ann(), st.kind, post.kind, hsOf(kind, post), rdl)
 		shape += "|" + strings.Join(ws[1:len(ws)-1], ":") + ">" + st.kind + ">" + post.kind
 		cr.stats["op:"+ws[1]]++
 	}
@@ -977,6 +1031,11 @@ func setupE2E(e *env, kind string, kaMs, wtMs, wskaMs int) (func(ws []string), f
 	wt := time.Duration(wtMs) * time.Millisecond
 	mux := http.NewServeMux()
 	mux.HandleFunc("/small", func(w http.ResponseWriter, r *http.Request) { _, _ = w.Write([]byte("hello")) })
+	mux.HandleFunc("/slow", func(w http.ResponseWriter, r *http.Request) {
+		ms, _ := strconv.Atoi(r.URL.Query().Get("ms"))
+		time.Sleep(time.Duration(ms) * time.Millisecond)
+		_, _ = w.Write([]byte("hello"))
+	})
 	mux.HandleFunc("/big", func(w http.ResponseWriter, r *http.Request) {
 		// explicit length: keeps the response off the chunked writer (another family's defect #8 lives there and
 		// would corrupt the process-wide buffer pool shared by the concurrently running cases)
@@ -1069,7 +1128,13 @@ func setupE2E(e *env, kind string, kaMs, wtMs, wskaMs int) (func(ws []string), f
 				return
 			}
 			_ = cli.SetDeadline(time.Now().Add(5 * time.Second))
-			if _, err := fmt.Fprintf(cli, "GET /%s HTTP/1.1\r\nHost: x\r\n\r\n", ws[2]); err != nil {
+			path := ws[2]
+			var slowUs int64
+			if ws[2] == "slow" && len(ws) > 3 {
+				path = "slow?ms=" + ws[3]
+				slowUs = int64(atoi(ws[3])) * 1000
+			}
+			if _, err := fmt.Fprintf(cli, "GET /%s HTTP/1.1\r\nHost: x\r\n\r\n", path); err != nil {
 				return
 			}
 			if wtUs > 0 {
@@ -1093,7 +1158,9 @@ func setupE2E(e *env, kind string, kaMs, wtMs, wskaMs int) (func(ws []string), f
 			t1 := e.us()
 			if c := e.nbc(); c != nil && !c.VerifState().Closed {
 				tr.clear(1, t0) // not "touch": the deadline was not due at t0
-				tr.set(0, t0+kaUs, t1+kaUs, t0)
+				// the keep-alive deadline is renewed when the response is flushed: not before the handler (which
+				// started at t0 at the earliest and took slowUs at least) has returned
+				tr.set(0, t0+slowUs+kaUs, t1+kaUs, t0)
 			}
 		case "wsup":
 			if cli == nil {
